@@ -41,17 +41,25 @@ try:
             demo_dir = os.path.dirname(demo_dir)
     if demo_dir is None:
         raise SystemExit("cannot tell the demo's package directory; pass --demo-dir")
+    pkgname = re.search(r"^package (\w+)", text, re.M).group(1)
+    dirpkg = subprocess.run(["go", "list", "-f", "{{.Name}}", "./" + demo_dir], cwd=wt, env=env, capture_output=True, text=True).stdout.strip()
+    mode = "internal" if pkgname == dirpkg else ("external" if pkgname == dirpkg + "_test" else "own-directory")
+    rec["demo_mode"] = mode
+    if mode == "own-directory":
+        demo_dir = os.path.join(demo_dir, "zz_seed_demo")
+        os.makedirs(os.path.join(wt, demo_dir), exist_ok=True)
     demo_dst = os.path.join(wt, demo_dir, "zz_seed_demo_test.go")
     shutil.copy(demo, demo_dst)
     mt = re.findall(r"^func (Test[A-Za-z0-9_]+)\(", text, re.M)
     run = "^(" + "|".join(mt) + ")$"
 
     def demo_run():
-        # File-list mode: the package's own *_test.go files do not compile (no generated mocks).
         d = os.path.join(wt, demo_dir)
-        files = subprocess.run(["go", "list", "-f", '{{join .GoFiles " "}}', "."], cwd=d, env=env, capture_output=True, text=True).stdout.split()
-        if re.search(r"^package \w+_test\s*$", text, re.M):
-            files = []  # external test package: uses the exported API only
+        if mode == "internal":
+            # File-list mode: the package's own *_test.go files do not compile (no generated mocks).
+            files = subprocess.run(["go", "list", "-f", '{{join .GoFiles " "}}', "."], cwd=d, env=env, capture_output=True, text=True).stdout.split()
+        else:
+            files = []
         cmd = ["go", "test", "-mod=mod", "-vet=off", "-count=1", "-run", run] + files + ["zz_seed_demo_test.go"]
         p = subprocess.run(cmd, cwd=d, env=env, capture_output=True, text=True, timeout=1200)
         return p.returncode, (p.stdout + p.stderr)[-1500:]
@@ -71,6 +79,8 @@ try:
     rec["demo_with_patch_fails"] = rc != 0 and "build failed" not in out and "cannot find" not in out
     rec["demo_with_patch_output"] = out[-600:]
     os.remove(demo_dst)
+    if mode == "own-directory":
+        shutil.rmtree(os.path.join(wt, demo_dir), ignore_errors=True)
     t = subprocess.run(["go", "test", "-mod=mod", "-vet=off", "-count=1", "-timeout", "25m", "./..."], cwd=wt, env=env, capture_output=True, text=True)
     fails = [l for l in t.stdout.splitlines() if l.startswith("FAIL") or l.startswith("--- FAIL")]
     # Packages whose tests do not compile (missing generated mocks) fail identically on the unchanged tree;
